@@ -170,7 +170,7 @@ def c07(prop, tier, seed, core):
     m["violations"].extend(extra_viol)
     # hostile scenarios, one process each
     # also 2^32 span ids on one thread (the per-thread counter wraps; about ten seconds)
-    add_hostile(m, core, prop, work, tier, HOSTILE + ["id-counter-wrap", "deep-backlog", "deep-backlog-cancel", "set-reporter-vs-cycles", "plain:reporter-panicked-earlier", "plain:reporter-needs-stack", "plain:flush-inside-scope-with-tracing-reporter"], known_sigs)
+    add_hostile(m, core, prop, work, tier, HOSTILE + ["id-counter-wrap", "deep-backlog", "deep-backlog-cancel", "set-reporter-vs-cycles", "plain:reporter-panicked-earlier", "plain:reporter-needs-stack", "plain:flush-inside-scope-with-tracing-reporter", "plain:exit-with-full-queue-while-reporter-busy"], known_sigs)
     if tier == "thorough":
         add_sanitizers(m, core, prop, work, seed)
     m["rule"] = (core.RULES["progsim"] + " C07 adds: programs from a hostile profile (40% no-op parents, empty parent sets, 25% unsampled roots, property "
@@ -275,7 +275,7 @@ def c01(prop, tier, seed, core):
         add_tsan_quick(m, core, prop, os.path.join(core.WORK, prop), seed)
         m["rule"] = core.RULES["progsim"] + " The quick tier also runs the stress engine (4500 jobs, two configurations) in a ThreadSanitizer build with an instrumented standard library; a report is a violation."
     # the background collector on its own: a delayed last command followed by silence
-    add_hostile(m, core, prop, os.path.join(core.WORK, prop), tier, ["lone-late-send", "reconfigure-interval", "flush-delivers-what-finished-before-it", "plain:slow-report-overruns-interval", "plain:threads-exactly-once", "plain:set-reporter-while-reporting", "big-cycle-late-signal", "reporter-traces"], [e["signature"] for e in core.known_for(prop)])
+    add_hostile(m, core, prop, os.path.join(core.WORK, prop), tier, ["lone-late-send", "reconfigure-interval", "flush-delivers-what-finished-before-it", "plain:slow-report-overruns-interval", "plain:threads-exactly-once", "plain:set-reporter-while-reporting", "big-cycle-late-signal", "reporter-traces", "many-busy-queues-flush", "nested-scope-capacity"], [e["signature"] for e in core.known_for(prop)])
     m["rule"] += (" One separate process: 36 rounds in which a thread's last command is held up for 0.5-9.5 ms right before it enters the queue, the thread exits, "
                   "and nothing calls into the library afterwards; the background collector (2 ms interval) must report the span. Another process configures a 1 h report interval, then re-configures 5 ms and waits for "
                   "background delivery.")
@@ -289,7 +289,7 @@ def c09(prop, tier, seed, core):
     m = core.check_progsim_family(prop, tier, seed)
     work = os.path.join(core.WORK, prop)
     known_sigs = [e["signature"] for e in core.known_for(prop)]
-    add_hostile(m, core, prop, work, tier, ["full-ring", "full-ring-cancelable", "deep-scopes", "deep-scopes-cancelable", "wide-scope", "deep-backlog", "deep-backlog-cancel", "big-cycle-late-signal", "big-cycle-late-signal-cancelable"], known_sigs)
+    add_hostile(m, core, prop, work, tier, ["full-ring", "full-ring-cancelable", "deep-scopes", "deep-scopes-cancelable", "wide-scope", "deep-backlog", "deep-backlog-cancel", "big-cycle-late-signal", "big-cycle-late-signal-cancelable", "nested-scope-capacity"], known_sigs)
     m["rule"] = (core.RULES["progsim"] + " C09 programs: ordinary operations, then one thread floods its 10240-slot command ring (10300+ cheap commands) while "
                  "the collector is held back, issues operations of every kind during the episode, the collector drains, the thread sends again and "
                  "runs a complete fresh trace. The Push hook reads `full` before every push, which gives the exact set of possibly dropped commands; "
